@@ -470,6 +470,7 @@ func c08Alias(r *core.Run, p *core.Program) {
 	ac := an.NewAliasChecker(p, fobj.Type().(*types.Named))
 	// Normalize rewrites the limbs of the same value (checked by R-C08-limbs): not an output write
 	ac.ValuePreserving = map[string]bool{"(*lib/secp256k1.Field).Normalize": true}
+	ac.Flags = map[string]bool{"Infinity": true} // the flag is part of the point: "r.Infinity = ..." before the input is read destroys it as well
 	n := 0
 	for _, tn := range []string{"XYZ", "XY"} {
 		obj := sp.Pkg.Scope().Lookup(tn)
